@@ -215,6 +215,55 @@ def c20_decode_oracle(line, res):
     return None
 
 
+def owndecode_gen(rng, tier):
+    """the decoder's release discipline, both hooks on: valid messages, messages whose RDLENGTH lies (every record type
+    with names in its RDATA), messages cut at every offset, mutated messages"""
+    import struct
+    out = []
+    n = [0]
+
+    def add(tag, b):
+        out.append("%s%d msg=%s" % (tag, n[0], gens.hx(b)))
+        n[0] += 1
+    # catalogue: one record of each type, RDLENGTH off by -1 / +1 / +2, and the message cut at every offset
+    for typ in (gens.T_A, gens.T_AAAA, gens.T_NS, gens.T_CNAME, gens.T_PTR, gens.T_MX, gens.T_SOA, gens.T_SRV, gens.T_TXT,
+                gens.T_OPT, 99):
+        for lie in (0, -1, 1, 2):
+            e = gens.Enc(rng, 0.0)
+            pool = gens.NamePool(rng)
+            e.u16(rng.randrange(65536)); e.u16(0x8180); e.u16(1); e.u16(2); e.u16(0); e.u16(0)
+            e.name(pool.pick()); e.u16(typ); e.u16(1)
+            gens.put_rr(e, rng, pool, typ=typ, rdlen_lie=lie)
+            gens.put_rr(e, rng, pool, typ=typ)
+            b = bytes(e.b)
+            add("cat", b)
+            if lie == 0:
+                step = 1 if tier == "thorough" else 3
+                for cut in range(12, len(b), step):
+                    add("cut", b[:cut])
+    for i in range(budget(tier, 250, 8000)):
+        add("v", gens.gen_msg(rng, max_rr=rng.choice([4, 8])))
+    for i in range(budget(tier, 400, 12000)):
+        add("l", gens.gen_msg(rng, rdlen_lie=True, max_rr=rng.choice([2, 4, 8])))
+    for i in range(budget(tier, 400, 12000)):
+        add("m", gens.mutate(rng, gens.gen_msg(rng, rdlen_lie=rng.random() < 0.3, max_rr=4)))
+    return out
+
+
+def owndecode_oracle(line, res):
+    if res.startswith("PANIC!") or res.startswith("HANG") or res == "CRASH":
+        return "decoder did not return: " + res[:60]
+    if res.startswith("ev=") and not res.startswith("ev=- "):
+        return "hook events while decoding / releasing: " + res.split(" ")[0][3:]
+    if "aaaaaaaa" in res and "aaaaaaaa" not in line:
+        return "decoded message contains the 0xAA pattern written into the receive buffer after decoding (aliasing)"
+    return None
+
+
+def owndecode_compare(ir, mr):
+    return ir.startswith("ev=") and ir.split(" ", 1)[1:] == [mr]
+
+
 PROPS["C20"] = dict(
     race=True,
     kinds=[
@@ -224,6 +273,9 @@ PROPS["C20"] = dict(
              classify=lambda l, r: "load/" + gens.fields(r).get("viol", "?"), nontrivial=ownload_nontrivial, timeout=2400),
         dict(name="decode", gen=c20_decode_gen, oracle=c20_decode_oracle,
              classify=lambda l, r: "decode/" + r.split(" ")[0][:8], nontrivial=lambda l, r: r.startswith("OK"), timeout=900),
+        dict(name="owndecode", gen=owndecode_gen, oracle=owndecode_oracle, compare=owndecode_compare,
+             classify=lambda l, r: "owndecode/" + l[:1] + "/" + (r.split(" ") + ["?", "?"])[1][:3],
+             nontrivial=lambda l, r: r.startswith("ev="), timeout=900),
     ],
     rule="ownership: every (transport, release/use ordering) pair replayed deterministically against gated fake peers "
          "(reuse, QUIC, pipeline: gated Write; DoH over HTTP/1.1 and HTTP/2-TLS: gated dialer, the fake server records the "
@@ -245,7 +297,8 @@ PROPS["C20"] = dict(
          "response or upstream-visible query, keyed answers, zero hook events (buffers: double / foreign release, write after "
          "release; objects: double release, write after release, one object handed out twice), no exchange returning a "
          "released message; decode: decoded dump taken after the input "
-         "buffer was overwritten and released, compared with the model's decode. distinct = distinct case line; "
+         "buffer was overwritten and released, compared with the model's decode; owndecode: valid, RDLENGTH-lying, cut and "
+         "mutated messages decoded and released with both hooks on (zero events; result compared with the model's decode). distinct = distinct case line; "
          "non-trivial = the scenario ran to a verdict (ownership), > 500 checked responses and > 500 checked direct "
          "exchanges (ownload), accepted message (decode). thorough: the same under -race (build/implrun-race); any DATA "
          "RACE report is a violation.",
